@@ -44,6 +44,7 @@ mod c46;
 mod c47;
 mod c49;
 mod c50;
+mod c36;
 
 pub fn run(item: &str, repo: &str, out: &str) -> Result<String, String> {
     let handlers: &[fn(&str, &str, &str) -> Option<Result<String, String>>] = &[
@@ -88,6 +89,7 @@ pub fn run(item: &str, repo: &str, out: &str) -> Result<String, String> {
         c47::run,
         c49::run,
         c50::run,
+        c36::run,
     ];
     for h in handlers {
         if let Some(r) = h(item, repo, out) {
